@@ -225,6 +225,13 @@ def run(prog, check):
                         d = dtf[0]
                         if isinstance(d, ast.Tuple) and not any(isinstance(e, ast.Starred) for e in d.elts) and len(d.elts) < need:
                             fmt_ok, why = False, 'format string needs %d values, %d given' % (need, len(d.elts))
+                        # the data is unpacked with * when (and only when) the log is registered: a scalar given where the tuple of
+                        # values belongs (`(x)` for `(x,)`) fails exactly then
+                        scalar = isinstance(d, (ast.Constant, ast.BinOp, ast.Compare, ast.BoolOp, ast.UnaryOp, ast.JoinedStr)) or \
+                            (isinstance(d, ast.Call) and isinstance(d.func, ast.Name) and d.func.id in ('len', 'int', 'float', 'abs', 'max', 'min', 'sum', 'round', 'id', 'bool'))
+                        if scalar and not (isinstance(d, ast.Constant) and isinstance(d.value, (str, tuple))):
+                            fmt_ok, why = False, 'data_to_format is the scalar `%s`, not a tuple of values: with the log registered the call raises ' \
+                                                  'TypeError, without it nothing happens' % unparse(d)
                 if not unused:
                     fmt_ok, why = False, 'the Logger(...) object is used as a value'
                 check.ob('C17.R3', '%s::Logger(%s)' % (f.key, (unparse(n.args[0])[:40] if n.args else '')), fmt_ok,
@@ -268,6 +275,20 @@ def run(prog, check):
     check.ob('C17.R4', '%s::installs-fresh-holder' % ic.key, ok, ic.where,
              'a newly constructed holder is installed on every normal path' if ok else
              'the previous holder (with the previous solve\'s series) can survive', 'solving twice: series would keep growing')
+    # until the fresh holder is installed, the series of the previous solve are still in place: nothing may read them
+    stale = []
+    for x in gi.stmt_nodes():
+        if x.ast is None or x in installs:
+            continue
+        reads = [a for a in ast.walk(x.ast if x.kind != 'for' else x.ast.iter) if isinstance(a, ast.Attribute) and a.attr == 'TimeSeries' and
+                 isinstance(a.ctx, ast.Load) and isinstance(a.value, ast.Name) and a.value.id == 'self']
+        if reads and not any(gi.dominates(inst, x) for inst in installs):
+            stale.append(x)
+    check.ob('C17.R4', '%s::previous-series-not-read' % ic.key, not stale, '%s:%d' % (ic.module.rel, stale[0].line) if stale else ic.where,
+             'the initialisation reads nothing of the holder it is about to replace' if not stale else
+             'self.TimeSeries is read at line %d before the fresh holder is installed: it still holds the previous solve\'s series, so '
+             'what this solve sets up depends on what was solved before' % stale[0].line,
+             'one solver object re-parsed and re-solved with different blocks')
     # the holder is filled from the variable list (every variable gets its k=0 point)
     # ---- R5 ----------------------------------------------------------------------------------------
     global_writes = {}
